@@ -190,8 +190,9 @@ class Cover:
     one not yet attempted at the current state, else the first step of a shortest path - through
     edges the implementation is known to take, or not yet tried - to a state that has one."""
 
-    def __init__(self, ctx, g, nodes, sup, sync):
+    def __init__(self, ctx, g, nodes, sup, sync, sample=False):
         self.ctx, self.g, self.nodes, self.sup, self.sync = ctx, g, nodes, sup, sync
+        self.sample = sample          # budgeted run: pick the next stimulus at random (seeded) for breadth
         self.covered = set()          # (state id, edge index) the implementation took
         self.attempted = set()        # (state id, stimulus key)
         self.suspects = []            # recorded executions to be judged by SvsTrace
@@ -226,7 +227,7 @@ class Cover:
     def next_stimulus(self, curs):
         for s in sorted(curs):
             if self.todo[s]:
-                return min(self.todo[s])
+                return self.ctx.rng.choice(sorted(self.todo[s])) if self.sample else min(self.todo[s])
         seen = {s: None for s in curs}
         dq = deque(sorted(curs))
         while dq:
@@ -312,7 +313,7 @@ def stage_b(ctx):
         g = graph.dump('SvsMC', cfg, workers=ctx.pick(4, 8), tag=name)
         ctx.add_tlc('Svs impl graph nodes=3 MaxSeq=%d packets=%s deviations as alternative edges (%d edges)' % (
             ms, pk, g.n_edges), g.tlc)
-        cov = Cover(ctx, g, nodes, 2, 10)
+        cov = Cover(ctx, g, nodes, 2, 10, sample=budget is not None)
         inits = sorted(g.init)
         bgs = []
         idle = 0
